@@ -352,6 +352,122 @@ def subgraph_oracle(w, keys, subs):
     return bad
 
 
+# ------------------------------------------------------------------ O4: failures recorded against specs (datasources and registry points)
+SPEC_OUTCOMES = ["value", "content_error", "skip", "crash"]
+SPEC_DEPS = {0: [], 1: [0], 2: [0], 3: [2], 4: [1], 5: [3]}
+
+
+class SpecWorld(object):
+    """D (datasource) implements spec A and also feeds datasource E, which implements spec B; one parser on each spec.
+    A datasource's failure is recorded against every spec it feeds, directly or through another datasource."""
+
+    def __init__(self, outcome_of, base, hashes=None):
+        from insights.core import plugins
+        self.n = 6
+        self.invocations = {}
+        self.comps = []
+
+        def mk(i, deco, rp=False):
+            def body(*args, _i=i):
+                self.invocations[_i] = self.invocations.get(_i, 0) + 1
+                oc = outcome_of(_i)
+                if oc == "value":
+                    v = base[_i]
+                    for k_, a in enumerate(args):
+                        if a is not None and not isinstance(a, dr.Broker):
+                            v = v + a * (k_ + 2)
+                    return v
+                if oc == "skip":
+                    raise SkipComponent()
+                if oc == "content_error":
+                    raise ContentException("c")
+                raise ValueError("crash %d" % _i)
+            body.__name__ = body.__qualname__ = "s%d" % i
+            body.__symx_order__ = i
+            h = None if hashes is None else hashes[i]
+            target = RegistryPoint(body, h) if rp else (body if h is None else HashedCallable(body, h))
+            self.comps.append(deco(target))
+        c = self.comps
+        mk(0, plugins.datasource())                           # D
+        mk(1, plugins.datasource([c[0]]), rp=True)            # spec A <- D
+        mk(2, plugins.datasource(c[0]))                       # E built on D
+        mk(3, plugins.datasource([c[2]]), rp=True)            # spec B <- E
+        mk(4, ctype(c[1]))                                    # parser of A
+        mk(5, ctype(c[3]))                                    # parser of B
+
+    def deps(self, i):
+        return SPEC_DEPS[i]
+
+    def graph(self, keys):
+        return dict((self.comps[i], set(dr.get_dependencies(self.comps[i]))) for i in keys)
+
+
+def spec_run(w, variant, order=None, given=False):
+    keys = list(range(6))
+    if variant == "extension":
+        return [dr.run_components([w.comps[i] for i in order], w.graph(keys), dr.Broker())]
+    if variant == "hashseed":
+        return [dr.run(w.graph(keys), broker=dr.Broker())]
+    return list(dr.run_incremental(w.graph(keys), broker=dr.Broker() if given else None))
+
+
+def make_specs():
+    def fn(en):
+        with REG:
+            chosen = {}
+
+            def outcome_of(i):
+                if i not in chosen:
+                    chosen[i] = SPEC_OUTCOMES[en.choice("outcome_%d" % i, len(SPEC_OUTCOMES))] if i in (0, 2) else "value"
+                return chosen[i]
+            base = [en.fresh_int("b%d" % i) for i in range(6)]
+            w = SpecWorld(outcome_of, base)
+            variant = ["extension", "hashseed", "incremental"][en.choice("variant", 3)]
+            given = en.flag("broker_given") if variant == "incremental" else False
+            info = {}
+            case = lambda mv: {"specworld": True, "n": 6, "outcomes": dict((str(i), o) for i, o in chosen.items()), "variant": variant, "broker_given": given,  # noqa
+                               "info": info, "base": [mv.int(b_) for b_ in base]}
+            en.note_sample(case)
+            ref = summary(w, [dr.run(w.graph(list(range(6))), broker=dr.Broker())])
+            w.invocations.clear()
+            escaped = None
+            try:
+                with oset.symbolic_order(mode="global"):
+                    order = None
+                    if variant == "extension":
+                        order = linear_extension(w, list(range(6)), lambda m: en.choice("ext", m))
+                        info["order"] = order
+                    brokers = spec_run(w, variant, order, given)
+            except Exception as ex:  # noqa
+                escaped, brokers = ex, []
+            en.must_hold(escaped is None, "schedule-independent", case, detail="driver raised %r" % (escaped,))
+            if escaped is None:
+                compare(en, "schedule-independent", case, ref, summary(w, brokers), variant)
+                over = [i for i, c in w.invocations.items() if c > 1]
+                en.must_hold(not over, "schedule-independent", case, detail="%s: components %s invoked more than once" % (variant, over))
+    return fn
+
+
+def _native_specs(case, hashes=None):
+    outcomes = dict((int(i), o) for i, o in case["outcomes"].items())
+    base = case.get("base") or [100 * (i + 1) for i in range(6)]
+    w0 = SpecWorld(lambda i: outcomes.get(i, "value"), base, list(range(6)) if hashes is not None else None)
+    ref = summary(w0, [dr.run(w0.graph(list(range(6))), broker=dr.Broker())])
+    w = SpecWorld(lambda i: outcomes.get(i, "value"), base, hashes)
+    tag = "" if hashes is None else " [component hash order %s]" % (hashes,)
+    try:
+        brokers = spec_run(w, case["variant"], case["info"].get("order") or list(range(6)), case.get("broker_given"))
+    except Exception as ex:  # noqa
+        return ["driver raised %r%s" % (ex, tag)]
+    got = summary(w, brokers)
+    bad = []
+    if got[:3] != ref[:3]:
+        bad.append("%s%s: %r vs single pass %r" % (case["variant"], tag, got, ref))
+    if got[3] or any(c > 1 for c in w.invocations.values()):
+        bad.append("duplicated %s / invoked more than once %s" % (got[3], w.invocations))
+    return bad
+
+
 def obligations(tier):
     thorough = tier == "thorough"
     n = 4 if thorough else 3
@@ -373,6 +489,10 @@ def obligations(tier):
                    bounds={"components": 3, "edge kinds": KINDS, "outcomes": ["value", "crash"], "priority of the registry point": [0, 1, -1], "provider": ["none", "directory (fails on first read)", "readable file"],
                            "schedules": "every linear extension; every set order; every sub-graph order"},
                    stubs=stubs[:1], outside=outside, encoded=enc + [TextFileProvider.load], budget_s=900 if thorough else 150, replay="sched", check_sample=True),
+        Obligation("O4-spec-failures", make_specs(), ["schedule-independent"],
+                   desc="real datasource components and registry points: a datasource that implements one spec and also feeds a second datasource implementing another spec; whatever it and the second datasource do (value, content error, skip, crash), the failures recorded against the specs, the values and the missing reports are the same for every set order, linear extension and sub-graph order",
+                   bounds={"graph": "D -> spec A -> parser; D -> E -> spec B -> parser", "outcomes of D and E": SPEC_OUTCOMES, "schedules": "every linear extension; every set order; run_incremental with and without a broker"},
+                   stubs=stubs[:1], encoded=enc, budget_s=300 if thorough else 100, replay="sched", check_sample=True),
         Obligation("O2-subgraphs", make_subgraphs(n + 1 if not thorough else n + 1), ["partition"],
                    desc="get_subgraphs: every requested component in exactly one sub-graph; sub-graphs = connected classes; nothing unrequested",
                    bounds={"components": n + 1, "edge kinds": KINDS, "requested keys": "every non-empty subset"}, stubs=stubs[:1],
@@ -383,6 +503,8 @@ def obligations(tier):
 
 # ------------------------------------------------------------------ native side
 def _native(case, hashes=None):
+    if case.get("specworld"):
+        return _native_specs(case, hashes)
     edges = dict(((i, j), k) for i, j, k in case["edges"])
     n = case["n"]
     if case["variant"] == "subgraphs":
